@@ -288,6 +288,8 @@ class Interp:
                 s1 = unify(g[1], ['a', a], s)
                 if s1 is not None:
                     yield s1
+            if getattr(self, 'pyend', False):
+                raise Boom()             # the predicate raises after its last row
         else:
             raise ValueError(g)
 
@@ -301,13 +303,14 @@ class Interp:
             if ctx['cuts'] > c0:
                 return
 
-def answers(clauses, dyn, stack, query, nv, j=None, maxans=40, show=None):
+def answers(clauses, dyn, stack, query, nv, j=None, maxans=40, show=None, pyend=False):
     """(list of canonical answers, end) ; raises Cyclic when the case is unspecified"""
     import sys
     lim = sys.getrecursionlimit()
     sys.setrecursionlimit(20000)
     try:
         it = Interp(clauses, dyn, nv, j)
+        it.pyend = pyend
         s = {}
         for a, b in stack:
             s1 = unify(a, b, s)
